@@ -35,6 +35,28 @@ CLAIMED["C07"] = (
     "DESIGN.md 3 C07",
 )
 
+CLAIMED["C08"] = (
+    XH + "; the finite operator x position x operand-kind x context x engine table is enumerated completely",
+    "Every comparison/membership operator with a missing field on either side, against every kind of other operand (literals, and fields whose "
+    "values are symbolic), bare and under and/or/not, is executed in both real engines and must be false without raising; the helper functions "
+    "must equal their meaning over the present fields; the real RecordStreamReader.__iter__ and record_stream over a mixed stream with real "
+    "selectors must yield exactly the matching records for all integer field values. The grammar is finite, so bounded model checking decides it completely.",
+    "Outside: 'x in <non-container>', 'not in' in the compiled engine, arithmetic on a missing field. Known finding K1 (compiled '<missing> in <str>') is "
+    "listed in known_findings.json. Stream level uses prepared records instead of the msgpack decoder.",
+    "DESIGN.md 3 C08",
+)
+CLAIMED["C09"] = (
+    "bounded-exhaustive enumeration of hostile call/attribute shapes executed through the real interpreter under CrossHair (record values symbolic); "
+    "oracle = reference classification written from the property text; counterexamples replayed through Selector.match",
+    "Every spelling of a call target (name, attribute chain, call result, constant, operator expression, generator variable) to depth 2 (3 thorough) "
+    "in 17 syntactic contexts that is not an allowed call must be refused by the real Selector for all values of the record's fields, without any "
+    "canary being invoked and without the record changing; every whitelisted helper applied to every field kind leaves the record unchanged. "
+    "The property has no value dimension, so the coverage is that of exhaustive enumeration within the depth bound; the evidence says so.",
+    "Trusted: the reference classification (allowed = whitelisted helper names, str/repr/any/all/fields, dotted names in the field-type WHITELIST). "
+    "Outside: shapes deeper than the bound; the compiled selector (documented as unsafe).",
+    "DESIGN.md 3 C09",
+)
+
 NOT_APPLICABLE = {
     "C13": "every operation the property constrains (datetime construction/arithmetic, fromisoformat, zoneinfo, fastavro/sqlite3 conversions) is C code; "
     "CrossHair realises each datetime component at the C constructor and the repo-side logic is two value-free ifs, so no value-level case would be decided by the solver (DESIGN.md 6)",
